@@ -89,7 +89,7 @@ Definition py_refresh (ps : pysession) (io1 io2 : probe_io) (seed : Z) : refresh
     | StepOk s d =>
       match v3_set_keys s (usr_name u) (user_auth_alg u) (user_auth_key u) (user_priv_alg u) (user_priv_key u) seed with
       | Ok s' => second {| ps_sock := s'; ps_to_refresh := require_auth u; ps_deferred := None |} [d]
-      | Err e => {| rr_session := {| ps_sock := s; ps_to_refresh := true; ps_deferred := Some u |}; rr_sent := [d];
+      | Err e => {| rr_session := {| ps_sock := with_user s (usr_name u); ps_to_refresh := true; ps_deferred := Some u |}; rr_sent := [d];
                     rr_raised := Some (err_to_exc e); rr_crashed := false |}
       | Panic => {| rr_session := ps; rr_sent := [d]; rr_raised := None; rr_crashed := true |}
       end
